@@ -19,6 +19,7 @@ func register(id string, f propFn) {
 	props[id] = func(w *World, r *Report) {
 		f(w, r)
 		round6(w, r, id)
+		round7(w, r, id)
 	}
 }
 
